@@ -512,6 +512,9 @@ p_uthread_local_free (PUThreadKey *key)
 	if (P_UNLIKELY (key == NULL))
 		return;
 
+	/* The platform key itself stays (see the documentation), but the
+	 * block holding its id belongs to this object */
+	p_free (key->key);
 	p_free (key);
 }
 
